@@ -57,6 +57,17 @@ class DirectCollocation(SamplingMethod):
         self.degree = degree
         self.tau = collocation_points(degree, scheme)
         [self.C, self.D, self.B] = collocation_coeff(self.tau)
+        # Quadrature weights on the collocation points themselves:
+        # collocation_coeff leaves out the weight of the extra node 0,
+        # which is nonzero for e.g. radau with degree 1 (constants were not integrated exactly)
+        B = []
+        for j in range(degree):
+            p = np.poly1d([1])
+            for r in range(degree):
+                if r != j:
+                    p *= np.poly1d([1, -self.tau[r]]) / (self.tau[j] - self.tau[r])
+            B.append(np.polyint(p)(1.0))
+        self.B = DM(B).T
         self.clean()
 
     def clean(self):
